@@ -50,6 +50,14 @@ ComponentsPartition == Done => /\ UNION Components(af) = af.args
 
 FastEqual == Done => \A s \in Sems : FamFast(af, s) = Fam(af, s)
 
+(* directionality (used by the pad_sinks relation of C11): adding an argument that is only attacked leaves the statuses of the    *)
+(* other arguments unchanged under GR, CO, PR, ID, ST.  Checked here by making the LAST argument a sink: compare with its removal. *)
+SinkDirectionality == (Done /\ n >= 2 /\ \A p \in att : p[1] # n) =>
+   LET small == RestrictAF(af, 1..(n - 1)) IN
+   \A s \in {"GR", "CO", "PR", "ID", "ST"} : \A a \in 1..(n - 1) :
+      /\ Cred(af, s, {a}) = Cred(small, s, {a})
+      /\ Skep(af, s, {a}) = Skep(small, s, {a})
+
 MetaFast == Done => FastEqualsTextbook(af)
 
 Export == Done => PrintT(<<"REF", ToJson([n |-> n, att |-> SetToSeq(att)])>>)
